@@ -13,12 +13,12 @@ func init() {
 	register(&Spec{
 		ID:          "C20",
 		Loads:       []LoadSpec{{Patterns: []string{"./discovery", "./netann", "./graph", "./graph/db", "./lnwire"}}},
-		Explanation: "Decides that a remote channel announcement reaches the graph only after ValidateChannelAnn succeeded (unconditionally for remote messages) and, unless channel validation is assumed or the id is an alias, after the funding output was located, matched against the 2-of-2 of the announced bitcoin keys and found unspent, with capacity and outpoint taken from that lookup; that the version-1 validator verifies the four signatures, each against its own key, over the double hash of DataToSign, which covers every non-signature field; that a channel update is applied only after the staleness test, field validation and a signature check under the node key selected by the direction bit, and the store applies it only when strictly newer than the timestamp stored for that same direction; that a node announcement is stored only after signature validation, for a node known to the graph, when strictly newer; and that messages are handed on for relay only on the accepting paths.",
+		Explanation: "Decides that a remote channel announcement reaches the graph only after ValidateChannelAnn succeeded (unconditionally for remote messages) and, unless channel validation is assumed or the id is an alias, after the funding output was located, matched against the 2-of-2 of the announced bitcoin keys and found unspent, with capacity and outpoint taken from that lookup; that the version-1 validator verifies the four signatures, each against its own key, over the double hash of DataToSign, which covers every non-signature field; that a channel update is applied only after the staleness test, field validation and a signature check under the node key selected by the direction bit, and the store applies it only when strictly newer than the timestamp stored for that same direction; that a node announcement is stored only after signature validation, for a node known to the graph, when strictly newer; that messages are handed on for relay only on the accepting paths; that a zombie resurrected by an update passed the full update validation (fields and signature), and one revived by FilterKnownChanIDs joins the ids to query; that only a spent funding output (btcwallet.ErrOutputSpent) is reported as ErrChannelSpent and closes a channel id; that a version-1 announcement naming one node on both sides is refused; and that every call lifting a zombie index entry lies below a verified channel update for that channel (FilterKnownChanIDs, which lifts entries on the timestamps a peer claims, is reported).",
 		NotDecided: []string{
 			"that every corruption is detected (cryptographic strength, parser totality: C10)", "gossip version 2 announcements beyond the dispatch to their validator", "the chain backend's answers (GetUtxo / block fetch)", "rate limiting, ban scores and the reject cache (they only drop more)",
 		},
 		Assumptions: commonAssumptions,
-		Engines:     "PATH, GUARD, MIRROR, CODEC, ROLE",
+		Engines:     "PATH, GUARD, MIRROR, CODEC, ROLE, WHO",
 		Run:         runC20,
 	})
 }
@@ -30,7 +30,7 @@ func runC20(r *an.Run) {
 	dirTerm := canonTerm(`^\(.*ChannelFlags & lnwire\.ChanUpdateDirection\)$|^\(\$p\d & lnwire\.ChanUpdateDirection\)$`)
 
 	r.Obl("signatures-over-the-signed-digest", "MIRROR",
-		"validateChannelAnn1 returns nil only after four Verify calls succeeded, each on the double hash of a.DataToSign() with the pairing (BitcoinSig1, BitcoinKey1), (BitcoinSig2, BitcoinKey2), (NodeSig1, NodeID1), (NodeSig2, NodeID2); the channel update and node announcement validators verify their single signature over the double hash of DataToSign under the key they are given / the announced node id; DataToSign of the three messages mentions every field of the message except the signatures",
+		"validateChannelAnn1 returns nil only after four Verify calls succeeded, each on the double hash of a.DataToSign() with the pairing (BitcoinSig1, BitcoinKey1), (BitcoinSig2, BitcoinKey2), (NodeSig1, NodeID1), (NodeSig2, NodeID2); the channel update and node announcement validators verify their single signature over the double hash of DataToSign under the key they are given / the announced node id; ValidateChannelUpdateAnn and ValidateNodeAnn answer nil only after their field check and their signature check both succeeded, each applied to the validator's own, unmodified arguments; DataToSign of the three messages mentions every field of the message except the signatures",
 		"a signature checked against the wrong key, or over a digest that omits a field, lets anyone forge or alter announcements", 20,
 		func(o *an.Obl) {
 			f := p.Func("netann.validateChannelAnn1")
@@ -93,23 +93,9 @@ func runC20(r *an.Run) {
 				}
 				mustPass(o, g, "Verify", gv, an.OkBoolTrue, g.StrictSuccessReturns())
 			}
-			// validators chain: fields then signature
-			for _, c := range []struct{ fn, first, second string }{
-				{"netann.ValidateChannelUpdateAnn", "netann.ValidateChannelUpdateFields", "netann.VerifyChannelUpdateSignature"},
-				{"netann.ValidateNodeAnn", "netann.ValidateNodeAnnFields", "netann.ValidateNodeAnnSignature"},
-			} {
-				g := p.Func(c.fn)
-				a, b := g.Calls(an.CalleeIs(c.first), false), g.Calls(an.CalleeIs(c.second), false)
-				if needExactly(o, g, c.first, a, 1) && needExactly(o, g, c.second, b, 1) {
-					for _, s := range g.Returns() {
-						if s.V == b[0].V {
-							mustPass(o, g, c.first, a, an.OkErrNil, []an.Site{s})
-						} else if an.IsNilIdent(g.Info(), s.Node.(*ast.ReturnStmt).Results[0]) {
-							o.FailAt(g.ID+"#success-without-signature", s.Where(), "%s succeeds without the signature check", c.fn)
-						}
-					}
-				}
-			}
+			// validators chain: fields then signature, each on the validator's own arguments
+			c20ValidatorChain(o, p, "netann.ValidateChannelUpdateAnn", "netann.ValidateChannelUpdateFields", "netann.VerifyChannelUpdateSignature", []string{"$p1", "$p2"}, []string{"$p2", "$p0"})
+			c20ValidatorChain(o, p, "netann.ValidateNodeAnn", "netann.ValidateNodeAnnFields", "netann.ValidateNodeAnnSignature", []string{"$p0"}, []string{"$p0"})
 			vu := p.Func("netann.VerifyChannelUpdateSignature")
 			for _, s := range vu.Calls(an.CalleeIs("netann.verifyChannelUpdate1Signature"), false) {
 				if a := vu.ArgCanon(s); a[1] != "$p1" {
@@ -398,7 +384,7 @@ func runC20(r *an.Run) {
 		})
 
 	r.Obl("channel-update-admission", "GUARD",
-		"handleChanUpdate reaches Graph.UpdateEdge only below !IsStaleEdgePolicy(graphScid, timestamp, flags) with timestamp = time.Unix(upd.Timestamp, 0) and a successful ValidateChannelUpdateAnn(pubKey, chanInfo.Capacity, upd), where chanInfo is the channel stored under graphScid and pubKey receives a value only in the two direction cases (chanInfo.NodeKey1() for direction 0, NodeKey2() for direction 1); the policy applied is the one parsed from upd, neither being modified on the way to UpdateEdge; the update is relayed (as the announcement list, extended only by this update) only after UpdateEdge succeeded; Builder.updateEdge writes the policy only for an existing channel and only when the timestamp stored for that same direction is before the new one; IsStaleEdgePolicy compares with the same direction's timestamp and answers not-stale otherwise only on a lookup error, for an unknown channel or when no direction case applies; both bind the results of HasV1ChannelEdge in (edge1, edge2, exists, isZombie) order; both stores report, cache and re-read the two directions' timestamps in (node1, node2) order, each taken from that direction's policy; every function of discovery and graph that writes a policy through UpdateEdge first passes ValidateChannelUpdateAnn against the stored channel's capacity; makeZombiePubkeys keeps node 1's key only in slot 1 and node 2's key only in slot 2, every call site hands it (NodeKey1Bytes, NodeKey2Bytes) and writes its results to the zombie index in that order, and processZombieUpdate marks the edge live only after the update's signature verified under pubKey, which receives a value only in the two direction cases (node 1's key iff the direction bit is 0)",
+		"handleChanUpdate reaches Graph.UpdateEdge only below !IsStaleEdgePolicy(graphScid, timestamp, flags) with timestamp = time.Unix(upd.Timestamp, 0) and a successful ValidateChannelUpdateAnn(pubKey, chanInfo.Capacity, upd), where chanInfo is the channel stored under graphScid and pubKey receives a value only in the two direction cases (chanInfo.NodeKey1() for direction 0, NodeKey2() for direction 1); the policy applied is the one parsed from upd, neither being modified on the way to UpdateEdge; the update is relayed (as the announcement list, extended only by this update) only after UpdateEdge succeeded; Builder.updateEdge writes the policy only for an existing channel and only when the timestamp stored for that same direction is before the new one; IsStaleEdgePolicy compares with the same direction's timestamp and answers not-stale otherwise only on a lookup error, for an unknown channel or when no direction case applies; both bind the results of HasV1ChannelEdge in (edge1, edge2, exists, isZombie) order; both stores report, cache and re-read the two directions' timestamps in (node1, node2) order, each taken from that direction's policy; every function of discovery and graph that writes a policy through UpdateEdge first passes ValidateChannelUpdateAnn against the stored channel's capacity; makeZombiePubkeys keeps node 1's key only in slot 1 and node 2's key only in slot 2, every call site hands it (NodeKey1Bytes, NodeKey2Bytes) and writes its results to the zombie index in that order, and processZombieUpdate marks the edge live only after netann.ValidateChannelUpdateAnn(pubKey, 0, msg) succeeded for the update it was handed, where pubKey receives a value only in the two direction cases (node 1's key iff the direction bit is 0); ValidateChannelUpdateAnn answers nil only after ValidateChannelUpdateFields(capacity, a) and VerifyChannelUpdateSignature(a, pubKey) both succeeded on its own, unmodified arguments",
 		"an update accepted from the wrong side, or not strictly newer, lets a peer (or a replay) overwrite the channel's forwarding policy", 18,
 		func(o *an.Obl) {
 			f := p.Func(gs + "handleChanUpdate")
@@ -520,14 +506,25 @@ func runC20(r *an.Run) {
 			c20SingleDef(o, pz, "isNode1", "(($p3.ChannelFlags & lnwire.ChanUpdateDirection) == 0)")
 			ml := pz.Calls(an.CalleeNamed("MarkEdgeLive"), false)
 			if needExactly(o, pz, "MarkEdgeLive", ml, 1) {
-				zv := pz.Calls(an.CalleeIs("netann.VerifyChannelUpdateSignature"), false)
-				mustPass(o, pz, "VerifyChannelUpdateSignature", zv, an.OkErrNil, ml)
-				// the signature that is verified is the update's own, under the key selected above
+				// the whole update is validated (fields and signature, as for a
+				// known channel), not the signature alone: the validator is the
+				// one handleChanUpdate uses, and a direct signature check does
+				// not stand in for it
+				zv := pz.Calls(an.CalleeIs("netann.ValidateChannelUpdateAnn"), false)
+				mustPass(o, pz, "ValidateChannelUpdateAnn", zv, an.OkErrNil, ml)
+				// what is validated is the update itself, under the key selected
+				// above; a zombie's capacity is unknown, so none is asserted
 				for _, v := range zv {
-					if a := pz.ArgCanon(v); a[0] != "$p3" || zKey == nil || c19VarObj(pz, callArg(v, 1)) != zKey {
-						o.FailAt(pz.ID+"#verified-under", v.Where(), "the zombie update is verified as (%s, %s), expected the update under the key selected by its direction", an.Text(callArg(v, 0)), an.Text(callArg(v, 1)))
+					a := pz.ArgCanon(v)
+					o.Site("processZombieUpdate: ValidateChannelUpdateAnn(%s, %s, %s)", an.Text(callArg(v, 0)), a[1], a[2])
+					if a[2] != "$p3" || zKey == nil || c19VarObj(pz, callArg(v, 0)) != zKey {
+						o.FailAt(pz.ID+"#verified-under", v.Where(), "the zombie update is validated as (%s, …, %s), expected the update under the key selected by its direction", an.Text(callArg(v, 0)), an.Text(callArg(v, 2)))
+					}
+					if a[1] != "0" {
+						o.FailAt(pz.ID+"#validated-capacity", v.Where(), "the zombie update is validated against capacity %s; the zombie index keeps no capacity, expected 0 (no capacity bound)", a[1])
 					}
 				}
+				c20ValidatorChain(o, p, "netann.ValidateChannelUpdateAnn", "netann.ValidateChannelUpdateFields", "netann.VerifyChannelUpdateSignature", []string{"$p1", "$p2"}, []string{"$p2", "$p0"})
 				if a := pz.ArgCanon(ml[0]); len(a) != 2 || a[1] != "$p2" {
 					o.FailAt(pz.ID+"#revived-channel", ml[0].Where(), "MarkEdgeLive%v: expected the channel the update was looked up under", a)
 				}
